@@ -29,7 +29,9 @@ RULE = ('typed conditional trees of depth 0..3 (1..4 top-level entries, each a l
         'or a finite parent with 1..2 child groups under 1..3 parent values) x a stored value '
         'for every parameter (int-for-float, float-for-int, python bool variations) x readers '
         '{cfg-orig, cfg-rt, client-ram, client-sql, client-grpc} x {valid, +unknown parameter, '
-        '+inactive parameter}; suggestions on flat spaces. distinct = hash(tree shape, reader, '
+        '+inactive parameter}; suggestions on flat spaces; flat spaces additionally as a '
+        're-created study (read, delete, same owner/id re-created with re-declared types, read). '
+        ' distinct = hash(tree shape, reader, '
         'kind, #active, #indexed groups); non-trivial = at least one typed value presented.')
 ASSUMPTIONS = [
     'add_int_param declares no external type: for INTEGER parameters only the value is '
@@ -50,7 +52,8 @@ REQUIRED_COUNTERS = ['values_typechecked:BOOLEAN', 'values_typechecked:INTEGER',
                      'conditional_trials_checked', 'conditional_trials_multi_parent_values',
                      'inactive_rejections_checked', 'unknown_rejections_checked',
                      'reads:cfg-orig', 'reads:cfg-rt', 'reads:client-ram', 'reads:client-sql',
-                     'reads:client-grpc', 'suggested_trials_read', 'pybool_leaf_values_read',
+                     'reads:client-grpc', 'suggested_trials_read',
+                     'recreated_study_reads_with_changed_declarations', 'pybool_leaf_values_read',
                      'deep_trials_in_memory_checked']
 MIN_DISTINCT = {'quick': 600, 'thorough': 5000}
 
@@ -264,6 +267,128 @@ def exec_suggest(ctx, reader, tree, algorithm):
       ctx.count('suggested_trials_read')
 
 
+# ---------------------------------------------------------------------------
+# re-created study: same owner + study id after delete, changed declarations
+# ---------------------------------------------------------------------------
+class _Probe:
+  """Collects what core.compare would report, without reporting it."""
+
+  def __init__(self):
+    self.v = []
+
+  def count(self, *a, **k):
+    pass
+
+  def violation(self, mech, what, case=None, witness=None):
+    self.v.append((mech, what))
+
+
+_LEAF_KINDS = ['BOOL', 'DISC_INT', 'DISC_INT_NOCAST', 'DISC_FRAC', 'DOUBLE', 'CATEGORICAL',
+               'INTEGER']
+
+
+def redeclare(rng, tree):
+  """Flat tree -> flat tree with the same names but other declared types (plus,
+  sometimes, one parameter dropped and one new parameter)."""
+  out = []
+  for p in tree:
+    q = p
+    if rng.random() < 0.75:
+      for _ in range(20):
+        q = core._typed_leaf(rng, p['name'], rng.choice(_LEAF_KINDS))  # pylint: disable=protected-access
+        if cond.declared_external(q) != cond.declared_external(p):
+          break
+      if p.get('index') is not None:
+        q['base'], q['index'] = p['base'], p['index']
+    out.append(q)
+  if len(out) > 1 and rng.random() < 0.3:
+    out.pop(rng.randrange(len(out)))
+  if rng.random() < 0.4:
+    out.append(core._typed_leaf(rng, 'fresh_param'))  # pylint: disable=protected-access
+  rng.shuffle(out)
+  return out
+
+
+def _named_study(service, tree, name):
+  from vizier._src.service import clients, resources, study_pb2, vizier_client
+  from vizier._src.service import vizier_service_pb2
+  _, cfg = _configs(tree)
+  st = study_pb2.Study(display_name=name, study_spec=cfg.to_proto())
+  st = service.CreateStudy(vizier_service_pb2.CreateStudyRequest(
+      parent=resources.OwnerResource('vvr').name, study=st))
+  return clients.Study(vizier_client.VizierClient(st.name, 'vv-client', service))
+
+
+_RECREATE_SEQ = [0]
+
+
+def exec_recreate(ctx, reader, tree, stored, tree2, stored2):
+  """Generation 1 is read (any per-client caching gets filled), deleted, and a
+  new study with the same owner / id but other declarations is read."""
+  from vizier.service import pyvizier as vz
+  _RECREATE_SEQ[0] += 1
+  name = f'recreated-{ctx.seed}-{ctx.shard}-{_RECREATE_SEQ[0]}'
+  case = core.case_of('recreate', reader, tree, stored, tree2=tree2,
+                      stored2=core.enc(stored2))
+  changed = sorted(n for n, p in cond.all_params(tree2).items()
+                   if n in cond.all_params(tree) and cond.declared_external(p)
+                   != cond.declared_external(cond.all_params(tree)[n]))
+  ctx.case(['recreate', reader, cond.tree_shape(tree), cond.tree_shape(tree2), len(changed)],
+           bool(changed))
+  service = _service(reader)
+  try:
+    study1 = _named_study(service, tree, name)
+    t1 = study1.request(vz.TrialSuggestion(parameters=stored))
+    got1 = t1.parameters
+  except Exception as e:  # pylint: disable=broad-except
+    ctx.violation(f'valid-trial-refused:{reader}:first-generation:{type(e).__name__}',
+                  f'{reader}: {type(e).__name__}: {str(e)[:200]}', case)
+    return
+  core.compare(ctx, reader, got1, tree, stored, case)
+  study1.delete()
+  study2 = _named_study(service, tree2, name)
+  if study2.resource_name != study1.resource_name:
+    ctx.count('recreate_resource_name_differs')
+    return
+  t2 = study2.request(vz.TrialSuggestion(parameters=stored2))
+  try:
+    got2, err = t2.parameters, None
+  except Exception as e:  # pylint: disable=broad-except
+    got2, err = None, e
+  probe = _Probe()
+  if err is None:
+    core.compare(probe, reader, got2, tree2, stored2, case)
+  if err is None and not probe.v:
+    ctx.count('recreated_study_reads_checked')
+    if changed:
+      ctx.count('recreated_study_reads_with_changed_declarations')
+    core.compare(ctx, reader + ':recreated', got2, tree2, stored2, case)   # counters
+    return
+  # ---- classification: does the CURRENT study config present it correctly? ----
+  cur_probe = _Probe()
+  try:
+    cur = study2.materialize_study_config().trial_parameters(
+        vz.TrialConverter.to_proto(t2.materialize()))
+    core.compare(cur_probe, reader, cur, tree2, stored2, case)
+    cur_ok = not cur_probe.v
+  except Exception:  # pylint: disable=broad-except
+    cur_ok = False
+  how = f'raised-{type(err).__name__}' if err is not None else probe.v[0][0].split(':')[0]
+  if cur_ok:
+    ctx.violation(f'recreated-study-read-with-stale-declarations:{how}:{reader}',
+                  f'{reader}: after delete + re-create under the same owner/study id, '
+                  f'Trial.parameters ' + (f'raised {type(err).__name__}: {str(err)[:120]}'
+                                          if err is not None else f'gave {dict(got2)!r}') +
+                  f' while the current study config presents the trial correctly '
+                  f'(declarations changed for {changed})', case,
+                  {'problems': probe.v[:4]})
+  elif err is not None:
+    ctx.violation(f'valid-trial-refused:{reader}:recreated:{type(err).__name__}',
+                  f'{reader}: {type(err).__name__}: {str(err)[:200]}', case)
+  else:
+    core.compare(ctx, reader + ':recreated', got2, tree2, stored2, case)
+
+
 READERS = ['cfg-orig', 'cfg-rt', 'client-ram', 'client-sql', 'client-grpc']
 
 
@@ -296,6 +421,13 @@ def run_case(ctx, i):
     algo = ['RANDOM_SEARCH', 'GRID_SEARCH', 'RANDOM_SEARCH', 'QUASI_RANDOM_SEARCH'][(i // 3) % 4]
     exec_suggest(ctx, rng.choice(['client-ram', 'client-sql'] + (
         ['client-grpc'] if i % 4 == 0 else [])), tree, algo)
+  # re-created study -------------------------------------------------------------
+  if cond.tree_depth(tree) == 0 and i % 3 != 0:
+    rr = ctx.rng(i, 'recreate')
+    tree2 = redeclare(rr, tree)
+    stored2 = core.active_assignment(tree2, core.draw_stored(rr, tree2))
+    reader = ['client-ram', 'client-sql', 'client-grpc'][(i // 3) % 3]
+    exec_recreate(ctx, reader, tree, stored, tree2, stored2)
 
 
 def run_shard(ctx):
@@ -318,5 +450,8 @@ def replay(ctx, case):
   elif case['kind'] == 'invalid':
     exec_invalid(ctx, case['reader'], case['tree'], stored, case['extra'],
                  core.dec(case['extra_value']), case['why'])
+  elif case['kind'] == 'recreate':
+    exec_recreate(ctx, case['reader'], case['tree'], stored, case['tree2'],
+                  core.dec(case['stored2']))
   else:
     exec_suggest(ctx, case['reader'], case['tree'], case['algorithm'])
